@@ -22,6 +22,11 @@ Verdict(e) ==
        ELSE IF e.encpost # e.encpre THEN "read_changed_encoding"
        ELSE IF e.validpost # e.validpre THEN "read_changed_validation"
        ELSE "ok"
+  ELSE IF e.op = "Assign"
+  THEN IF e.outcome # "ok" THEN "write_raised"
+       ELSE IF Cardinality(post) # Len(e.post) THEN "write_created_element_twice"
+       ELSE IF ~AssignAllowed(pre, post, e.path, e.leafpath, e.v) THEN "assignment_lost_or_created_something_else"
+       ELSE "ok"
   ELSE IF e.outcome # "ok" THEN "write_raised"
        ELSE IF Cardinality(post) # Len(e.post) THEN "write_created_element_twice"
        ELSE IF ~WriteAllowed(pre, post, e.path, e.v) THEN "write_did_not_create_exactly_the_chain"
